@@ -135,6 +135,22 @@ def check_case(ctx, case, tmp=TMP):
     return out
 
 
+def edge_stream(ctx, tmp=TMP):
+    """inputs outside the domain (see c04.EDGE): only model/code agreement is checked"""
+    for name, case in c04.EDGE.items():
+        src, pre, raw, gen_by, date, sn, results = write_read_load(case, tmp)
+        base = c04.request(case, src, pre, raw, gen_by, date)
+        ctx.case({"edge": name}, nontrivial=False)
+        for ld, ax, res in results:
+            r = ctx.driver.ask(dict(base, loader=ld, axis=ax, sniff=sn,
+                                    obs={k: v for k, v in res.items() if k != "message"}))
+            ctx.count("out-of-domain(agreement only):%s:holds=%s" % (name, r["holds"]))
+            if not (r["agree"] and r["raw_agree"]):
+                ctx.diverge({"case": case, "edge": name, "loader": ld, "axis": ax},
+                            "loader result differs from the model (out-of-domain input)", ["edge=" + name],
+                            detail={"model": r["model"], "loaded": res})
+
+
 # the repaired defects first: non-ASCII IDs (F-C01-1, corpus/probes/p01.py), empty-axis ids dataset (F-C04-1)
 CORPUS = [
     {"spec": {"obs": ["ö1", "o2"], "samp": ["s1", "sé2"], "rows": [[1.0, 2.0], [3.0, 4.0]],
@@ -170,9 +186,10 @@ def run(ctx):
         for case in CORPUS:
             check_case(ctx, case)
             ctx.count("corpus")
-        n = 380 if ctx.quick() else 10000
+        n = 380 if ctx.quick() else 6000
         for _ in range(n):
             check_case(ctx, c04.gen_case(ctx.rng, ctx.quick(), empty_axes=(ctx.rng.random() < 0.3)))
+        edge_stream(ctx)
     finally:
         shutil.rmtree(TMP, ignore_errors=True)
 
